@@ -115,25 +115,16 @@ theorem sto_len0 (C : Option Bytes → Bytes → Bytes) (ct : Nat) (d : Option B
     sto C ct d p = [] := by
   unfold sto; rw [if_pos h]
 
-/-- **C01, any backend, from the bytes `zck_close` writes.**  `f` = the file the model of `zck_close` produces for a dictionary
-(possibly empty) and non-empty data chunks with compressor `C`; if the decompressor inverts `C` (and `C` does not produce nothing
-from something) the parser model opens `f` and, for ANY read schedule that ends short, the bytes handed back are exactly the data
-chunks concatenated, and `zck_close` succeeds. -/
-theorem closeFile_reads_back (C : Option Bytes → Bytes → Bytes) (ht cht ct ds cs : Nat) (u : Bool) (dict : Bytes) (chunks : List Bytes)
+/-- the file the model of `zck_close` produces is well-formed for the reader, and its content is the data chunks concatenated -/
+theorem closeFile_wf (C : Option Bytes → Bytes → Bytes) (ht cht ct ds cs : Nat) (u : Bool) (dict : Bytes) (chunks : List Bytes)
     (f : Bytes) (hf : closeFile H C ht cht ct u dict chunks = some f)
     (hct : ct = 0 ∨ ct = 2)
     (hC : ct ≠ 0 → ∀ d p, p ≠ [] → D (C d p) d = some p ∧ C d p ≠ [])
     (hds : hsize ht = some ds) (hcs : hsize cht = some cs) (hH : HashLen H)
     (hne : ∀ p ∈ chunks, p ≠ []) (hsmall : ∀ p ∈ dict :: chunks, p.length < allocLimit) (hlen : f.length < 2^63)
     (hidx : ∀ ents dd, (storedPairs C ct dict chunks).mapM (fun (x : Bytes × Bytes × Bytes) => entryOf H cht u x.1 x.2.1 x.2.2) = some ents →
-      (encIndex ⟨ht, cht, if u then 4 else 0, ct, dd, ents⟩).length < 2^31)
-    (init : List Nat) (nl : Nat) :
-    ∃ h, openFile H f = .ok h ∧
-      (∀ r ∈ (reads H D f (openCtx h) init).1, 0 ≤ r.ret ∧ r.ret = r.bytes.length) ∧
-      0 ≤ (compRead H D f (reads H D f (openCtx h) init).2 nl).1.ret ∧
-      ((compRead H D f (reads H D f (openCtx h) init).2 nl).1.ret < nl →
-        outOf (reads H D f (openCtx h) init).1 ++ (compRead H D f (reads H D f (openCtx h) init).2 nl).1.bytes = chunks.flatten ∧
-        close H (compRead H D f (reads H D f (openCtx h) init).2 nl).2 = true) := by
+      (encIndex ⟨ht, cht, if u then 4 else 0, ct, dd, ents⟩).length < 2^31) :
+    ∃ h, openFile H f = .ok h ∧ WF H D f h ∧ doneFrom D f h 1 (h.chunks.drop 1) = chunks.flatten := by
   unfold closeFile at hf
   simp only at hf
   generalize hpairs : storedPairs C ct dict chunks = pairs at hf hidx
@@ -319,15 +310,38 @@ theorem closeFile_reads_back (C : Option Bytes → Bytes → Bytes) (ht cht ct d
             right
             simp only [Bool.false_eq_true, if_false] at hdd
             rw [m2, hsht, hsdd]; exact hdd
-        obtain ⟨r0, r1, r2, r3⟩ := write_read_roundtrip H D s (mkW ents pairs) ds cs dg (by rw [hsch, m1]) hfits hdg hdgl
-          hwlen h0ok hrestok hsmall' hdataok init nl
-        rw [← hfile] at r0 r1 r2 r3
-        refine ⟨_, r0, r1, r2, fun hshort => ?_⟩
-        obtain ⟨a, b⟩ := r3 hshort
-        refine ⟨?_, b⟩
-        rw [a, List.map_drop, m3, ← hpairs]
+        obtain ⟨r0, wf, hc⟩ := written_WF H D s (mkW ents pairs) ds cs dg (by rw [hsch, m1]) hfits hdg hdgl
+          hwlen h0ok hrestok hsmall' hdataok
+        rw [← hfile] at r0 wf hc
+        refine ⟨_, r0, wf, ?_⟩
+        rw [hc, List.map_drop, m3, ← hpairs]
         unfold storedPairs
         simp [Function.comp_def]
+
+/-- **C01, any backend, from the bytes `zck_close` writes.**  `f` = the file the model of `zck_close` produces for a dictionary
+(possibly empty) and non-empty data chunks with compressor `C`; if the decompressor inverts `C` (and `C` does not produce nothing
+from something) the parser model opens `f` and, for ANY read schedule that ends short, the bytes handed back are exactly the data
+chunks concatenated, and `zck_close` succeeds. -/
+theorem closeFile_reads_back (C : Option Bytes → Bytes → Bytes) (ht cht ct ds cs : Nat) (u : Bool) (dict : Bytes) (chunks : List Bytes)
+    (f : Bytes) (hf : closeFile H C ht cht ct u dict chunks = some f)
+    (hct : ct = 0 ∨ ct = 2)
+    (hC : ct ≠ 0 → ∀ d p, p ≠ [] → D (C d p) d = some p ∧ C d p ≠ [])
+    (hds : hsize ht = some ds) (hcs : hsize cht = some cs) (hH : HashLen H)
+    (hne : ∀ p ∈ chunks, p ≠ []) (hsmall : ∀ p ∈ dict :: chunks, p.length < allocLimit) (hlen : f.length < 2^63)
+    (hidx : ∀ ents dd, (storedPairs C ct dict chunks).mapM (fun (x : Bytes × Bytes × Bytes) => entryOf H cht u x.1 x.2.1 x.2.2) = some ents →
+      (encIndex ⟨ht, cht, if u then 4 else 0, ct, dd, ents⟩).length < 2^31)
+    (init : List Nat) (nl : Nat) :
+    ∃ h, openFile H f = .ok h ∧
+      (∀ r ∈ (reads H D f (openCtx h) init).1, 0 ≤ r.ret ∧ r.ret = r.bytes.length) ∧
+      0 ≤ (compRead H D f (reads H D f (openCtx h) init).2 nl).1.ret ∧
+      ((compRead H D f (reads H D f (openCtx h) init).2 nl).1.ret < nl →
+        outOf (reads H D f (openCtx h) init).1 ++ (compRead H D f (reads H D f (openCtx h) init).2 nl).1.bytes = chunks.flatten ∧
+        close H (compRead H D f (reads H D f (openCtx h) init).2 nl).2 = true) := by
+  obtain ⟨h, hopen, wf, hc⟩ := closeFile_wf H D C ht cht ct ds cs u dict chunks f hf hct hC hds hcs hH hne hsmall hlen hidx
+  obtain ⟨r1, r2, _, r4⟩ := read_back wf init nl
+  exact ⟨h, hopen, r1, r2, fun hshort => by
+    obtain ⟨a, b⟩ := r4 hshort
+    exact ⟨by rw [a, hc], b⟩⟩
 
 /-- **C01, any backend, from the API calls to the bytes read back.**  Any sequence of write / end-of-chunk calls under a legal
 configuration, closed (chunker model), the file `zck_close` writes for the resulting chunks with compressor `C` (byte-for-byte
